@@ -69,7 +69,7 @@ func c05Check(c stage.Cfg) func(o *obs.Obs) string {
 func c05Scenarios(tier string) []e1lib.Scenario {
 	maxK, bound4 := 4, -1
 	if tier == "thorough" {
-		maxK = 5
+		maxK = 6
 		bound4 = 4
 	}
 	var out []e1lib.Scenario
@@ -131,6 +131,6 @@ func c05Scenarios(tier string) []e1lib.Scenario {
 
 func propC05() drv.Property {
 	return table("C05",
-		"one case = one sequential stage (Map with Pure/Lift/Try, FMap with LiftF/TryF, Filter, TakeWhile, Take, Partition, Fold, ForEach, Void, Seq/ToSeq) x input 1..k (k<=4, 5 in thorough) x input capacity 0..2 x every predicate pattern (2^k) x every Take n in 0..k+1, with a producer thread, the stage's goroutine(s) and one draining consumer thread per output; every interleaving is explored (state-cached, unbounded; preemption bound 4 for k=5 FMap/Partition); the outcome of a case is deterministic by design, so non-trivial = k>=2 and more than one schedule",
+		"one case = one sequential stage (Map with Pure/Lift/Try, FMap with LiftF/TryF, Filter, TakeWhile, Take, Partition, Fold, ForEach, Void, Seq/ToSeq) x input 1..k (k<=4, 6 in thorough) x input capacity 0..2 x every predicate pattern (2^k) x every Take n in 0..k+1, with a producer thread, the stage's goroutine(s) and one draining consumer thread per output; every interleaving is explored (state-cached, unbounded; preemption bound 4 for k>=5 FMap/Partition); the outcome of a case is deterministic by design, so non-trivial = k>=2 and more than one schedule",
 		commonAssumptions, c05Scenarios)
 }
